@@ -40,7 +40,9 @@ def local_origin(body, local, depth=0):
     """Name-free description of a local: `self`/`argN` for parameters; the origin of its single definition; `counter`
     for a local that is initialised with a constant and only ever stepped by a constant; its name as a last resort."""
     if 1 <= local <= body.argc:
-        return 'self' if body.local_names.get(local) == 'self' else 'arg%d' % local
+        if body.local_names.get(local) == 'self':
+            return 'self'
+        return '<%s>' % str(body.locals[local]).replace('&mut ', '').replace('&', '')
     defs = _defs_of(body, local)
     if len(defs) == 1 and depth <= 40:
         return _def_origin(body, defs[0], depth + 1)
@@ -69,8 +71,11 @@ def _def_origin(body, d, depth):
         if rv['k'] == 'discr':
             return 'discr(%s)' % operand_origin(body, bi, {'k': 'copy', 'place': rv['place']}, depth + 1)
         return rv['k']
-    return '%s(%s)' % (strip_generics(d['res'] or d['decl']).split('::')[-1],
-                       ','.join(operand_origin(body, bi, a, depth + 1) for a in d['args']))
+    callee = strip_generics(d['res'] or d['decl'])
+    short = callee.split('::')[-1]
+    if callee == '<&[u8] as bytes::Buf>::remaining':
+        short = 'len'           # the remaining bytes of a slice are its length
+    return '%s(%s)' % (short, ','.join(operand_origin(body, bi, a, depth + 1) for a in d['args']))
 
 
 def operand_origin(body, block_idx, op, depth=0):
@@ -132,3 +137,51 @@ def panic_sites(facts, skip=lambda b: False):
                 else:
                     yield {'kind': 'call', 'body': b, 'block': bi, 'term': t, 'decl': d, 'res': r,
                            'span': t['span'], 'desc': (r or d)}
+
+
+def operand_root(body, op, depth=0):
+    """Follow copies/moves/casts of temporaries back to ('const', operand) / ('param', n) / None."""
+    if op['k'] == 'const':
+        return ('const', op)
+    p = op['place']
+    if p['proj'] or depth > 12:
+        return None
+    if 1 <= p['local'] <= body.argc:
+        return ('param', p['local'])
+    defs = _defs_of(body, p['local'])
+    if len(defs) != 1 or 'rv' not in defs[0][1]:
+        return None
+    rv = defs[0][1]['rv']
+    if rv['k'] == 'use':
+        return operand_root(body, rv['op'], depth + 1)
+    if rv['k'] == 'cast':
+        return operand_root(body, rv['a'], depth + 1)
+    return None
+
+
+def literal_args(facts, fn_nname, n, depth=0):
+    """The constant operands passed for parameter n (1-based) of a crate function at every call site in the crate,
+    following parameters that a caller merely forwards.  None if some call site passes something else (or there is none)."""
+    if depth > 4:
+        return None
+    out = []
+    found = False
+    for b, bi, t in facts.all_calls():
+        if strip_generics(t['res']) != fn_nname:
+            continue
+        found = True
+        if n - 1 >= len(t['args']):
+            return None
+        r = operand_root(b, t['args'][n - 1])
+        if r is None:
+            return None
+        if r[0] == 'const':
+            out.append(r[1])
+        else:
+            if b.kind == 'Closure':
+                return None
+            up = literal_args(facts, b.nname, r[1], depth + 1)
+            if up is None:
+                return None
+            out += up
+    return out if found else None
